@@ -122,6 +122,24 @@ pub fn vp_position_stop_gt<'a>(segs: &Vec<TrackSegment<'a>>, start: DbUnits) -> 
 }
 
 
+pub open spec fn no_rail(s: Seq<TrackSegment>) -> bool { forall|i: int| 0 <= i < s.len() ==> !((#[trigger] s[i]).tp is Rail) }
+proof fn lemma_cut_no_rail<'a>(o: Seq<TrackSegment<'a>>, k: int, start: DbUnits, stop: DbUnits, tp: TrackSegmentType<'a>)
+    requires 0 <= k < o.len(), !(tp is Rail),
+    ensures no_rail(o) ==> no_rail(cut_result(o, k, start, stop, tp)), cut_result(o, k, start, stop, tp).len() >= o.len(),
+{
+    let f = cut_result(o, k, start, stop, tp);
+    let n: int = if o[k].stop != stop { 2 } else { 1 };
+    assert(f.len() == o.len() + n);
+    if no_rail(o) {
+        assert forall|i: int| 0 <= i < f.len() implies !((#[trigger] f[i]).tp is Rail) by {
+            if i < k { assert(f[i] == o[i]); }
+            else if i == k { assert(f[k] == TrackSegment { tp: o[k].tp, start: o[k].start, stop: start }); }
+            else if i == k + 1 { assert(f[k + 1] == TrackSegment { tp, start, stop }); }
+            else if i == k + 2 && n == 2 { assert(f[k + 2] == TrackSegment { tp: o[k].tp, start: stop, stop: o[k].stop }); }
+            else { assert(f[i] == o[i - n]); }
+        }
+    }
+}
 /// cutting inside a tiling leaves a tiling (pure sequence reasoning)
 proof fn lemma_cut_tiles<'a>(o: Seq<TrackSegment<'a>>, k: int, start: DbUnits, stop: DbUnits, tp: TrackSegmentType<'a>)
     requires tiles(o), first_after(o, start, k), o[0].start.0 <= start.0, start.0 < stop.0, stop.0 <= o[k].stop.0,
@@ -156,13 +174,17 @@ impl<'lib> Track<'lib> {
 //@   sub R6 /self\s*\.segments\s*\.iter_mut\(\)\s*\.position\(\|seg\| seg\.stop > start\)/ => vp_position_stop_gt(&self.segments, start)
 //@   sub R5 /TrackConflict::from\(tp\)/ => vp_conflict_from(tp)
 //@   spec
-//|     requires tiles(old(self).segments@), old(self).segments@[0].start.0 <= start.0, start.0 < stop.0, tp is Cut || tp is Blockage, old(self).segments@.len() < 0x7fff_ffff_ffff_fff0,
+//|     // preconditions = what the body needs not to panic: a first piece exists (`last().unwrap()`), room for two insertions, and a cut/blockage type (TrackConflict::from)
+//|     requires old(self).segments@.len() >= 1, tp is Cut || tp is Blockage, old(self).segments@.len() < 0x7fff_ffff_ffff_fff0,
 //|     ensures
 //|         r is Ok ==> (exists|k: int| first_after(old(self).segments@, start, k) && (old(self).segments@[k].tp is Wire || old(self).segments@[k].tp is Rail)
 //|             && stop.0 <= old(self).segments@[k].stop.0 && #[trigger] cut_result(old(self).segments@, k, start, stop, tp) == final(self).segments@),
-//|         r is Ok ==> tiles(final(self).segments@),
+//|         // on a tiling track, a cut that starts inside it and has positive length leaves a tiling
+//|         (r is Ok && tiles(old(self).segments@) && old(self).segments@[0].start.0 <= start.0 && start.0 < stop.0) ==> tiles(final(self).segments@),
 //|         r is Err ==> final(self).segments@ == old(self).segments@,
-//|         final(self).data == old(self).data,
+//|         final(self).data == old(self).data, final(self).segments@.len() >= old(self).segments@.len(),
+//|         // pieces keep their kind: no rail appears where there was none
+//|         no_rail(old(self).segments@) ==> no_rail(final(self).segments@),
 //@   before /for \(idx, seg\) in to_be_inserted/
 //|         let ghost k = segidx as int;
 //|         let ghost o = old(self).segments@;
@@ -185,31 +207,34 @@ impl<'lib> Track<'lib> {
 //@   before /^        Ok\(\(\)\)$/
 //|         proof {
 //|             assert(self.segments@ =~= cut_result(o, k, start, stop, tp));
-//|             lemma_cut_tiles(o, k, start, stop, tp);
+//|             if tiles(o) && o[0].start.0 <= start.0 && start.0 < stop.0 { lemma_cut_tiles(o, k, start, stop, tp); }
+//|             lemma_cut_no_rail(o, k, start, stop, tp);
 //|         }
 //@ end
 
 //@ fn layout21tetris/src/tracks.rs :: impl<'lib> Track<'lib> :: fn block
 //@   ret r
 //@   spec
-//|     requires tiles(old(self).segments@), old(self).segments@[0].start.0 <= start.0, start.0 < stop.0, old(self).segments@.len() < 0x7fff_ffff_ffff_fff0,
+//|     requires old(self).segments@.len() >= 1, old(self).segments@.len() < 0x7fff_ffff_ffff_fff0,
 //|     ensures
 //|         r is Ok ==> (exists|k: int| first_after(old(self).segments@, start, k) && (old(self).segments@[k].tp is Wire || old(self).segments@[k].tp is Rail)
 //|             && stop.0 <= old(self).segments@[k].stop.0 && #[trigger] cut_result(old(self).segments@, k, start, stop, TrackSegmentType::Blockage { src: *src }) == final(self).segments@),
-//|         r is Ok ==> tiles(final(self).segments@),
+//|         (r is Ok && tiles(old(self).segments@) && old(self).segments@[0].start.0 <= start.0 && start.0 < stop.0) ==> tiles(final(self).segments@),
 //|         r is Err ==> final(self).segments@ == old(self).segments@,
-//|         final(self).data == old(self).data,
+//|         final(self).data == old(self).data, final(self).segments@.len() >= old(self).segments@.len(),
+//|         no_rail(old(self).segments@) ==> no_rail(final(self).segments@),
 //@ end
 //@ fn layout21tetris/src/tracks.rs :: impl<'lib> Track<'lib> :: fn cut
 //@   ret r
 //@   spec
-//|     requires tiles(old(self).segments@), old(self).segments@[0].start.0 <= start.0, start.0 < stop.0, old(self).segments@.len() < 0x7fff_ffff_ffff_fff0,
+//|     requires old(self).segments@.len() >= 1, old(self).segments@.len() < 0x7fff_ffff_ffff_fff0,
 //|     ensures
 //|         r is Ok ==> (exists|k: int| first_after(old(self).segments@, start, k) && (old(self).segments@[k].tp is Wire || old(self).segments@[k].tp is Rail)
 //|             && stop.0 <= old(self).segments@[k].stop.0 && #[trigger] cut_result(old(self).segments@, k, start, stop, TrackSegmentType::Cut { src }) == final(self).segments@),
-//|         r is Ok ==> tiles(final(self).segments@),
+//|         (r is Ok && tiles(old(self).segments@) && old(self).segments@[0].start.0 <= start.0 && start.0 < stop.0) ==> tiles(final(self).segments@),
 //|         r is Err ==> final(self).segments@ == old(self).segments@,
-//|         final(self).data == old(self).data,
+//|         final(self).data == old(self).data, final(self).segments@.len() >= old(self).segments@.len(),
+//|         no_rail(old(self).segments@) ==> no_rail(final(self).segments@),
 //@ end
 //@ fn layout21tetris/src/tracks.rs :: impl<'lib> Track<'lib> :: fn stop
 //@   ret r
@@ -224,8 +249,8 @@ impl<'lib> Track<'lib> {
 //@   ret r
 //@   sub R6 /let mut seg = None;\s*for s in self\.segments\.iter_mut\(\) \{\s*if (.*?) \{\s*break;\s*\}\s*if (.*?) \{\s*seg = Some\(s\);\s*break;\s*\}\s*\}/ => let mut vp_k: Option<usize> = None; let mut vp_i: usize = 0; while vp_i < self.segments.len() { let s = &self.segments[vp_i]; if \1 { break; } if \2 { vp_k = Some(vp_i); break; } vp_i += 1; } let seg: Option<&mut TrackSegment<'lib>> = match vp_k { None => None, Some(k) => Some(&mut self.segments[k]) };
 //@   spec
-//|     requires forall|i: int| 0 <= i < old(self).segments@.len() ==> !((#[trigger] old(self).segments@[i]).tp is Rail),
-//|     ensures final(self).segments@.len() == old(self).segments@.len(), final(self).data == old(self).data,
+//|     requires no_rail(old(self).segments@),
+//|     ensures final(self).segments@.len() == old(self).segments@.len(), final(self).data == old(self).data, no_rail(final(self).segments@),
 //|         ({ let o = old(self).segments@; match r {
 //|             // the first piece containing `at` (touching pieces: the earlier one) gets the net if it is a wire; a blockage is left alone
 //|             Ok(_) => exists|k: int| #[trigger] first_hit(o, at, k) && (
